@@ -121,8 +121,8 @@ class Reacher(AbstractMujocoEnv[Float[Array, "..."], Float[Array, "..."]]):
         data = state.sim_state
 
         theta = data.qpos.reshape(-1)[:2]
-        fingertip = data.xipos[self.fingertip_body_id]
-        target = data.xipos[self.target_body_id]
+        fingertip = data.xpos[self.fingertip_body_id]
+        target = data.xpos[self.target_body_id]
 
         return jnp.concatenate(
             (
@@ -144,8 +144,8 @@ class Reacher(AbstractMujocoEnv[Float[Array, "..."], Float[Array, "..."]]):
     ) -> Float[Array, ""]:
         data = next_state.sim_state
 
-        fingertip = data.xipos[self.fingertip_body_id]
-        target = data.xipos[self.target_body_id]
+        fingertip = data.xpos[self.fingertip_body_id]
+        target = data.xpos[self.target_body_id]
         vec = fingertip - target
 
         reward_dist = -jnp.linalg.norm(vec) * self.reward_dist_weight
@@ -166,8 +166,8 @@ class Reacher(AbstractMujocoEnv[Float[Array, "..."], Float[Array, "..."]]):
     ) -> dict:
         data = next_state.sim_state
 
-        fingertip = data.xipos[self.fingertip_body_id]
-        target = data.xipos[self.target_body_id]
+        fingertip = data.xpos[self.fingertip_body_id]
+        target = data.xpos[self.target_body_id]
         vec = fingertip - target
 
         return {
